@@ -12,5 +12,16 @@ PROPS = {
                       "logical lines == tokenizer statement boundaries for every text (bounded only)"],
     },
 }
+PROPS["C10"] = {
+    "sidecars": ["c10_change.py", "c10_taskhandle.py", "c11_history.py"],
+    "level": "proof",
+    "claim": "Proof level: ChangeSet.do/undo restore the ghost tree on any single failure (loop invariants over apply/unapply, rollback in reverse "
+             "order), the job-set wrapper never fails after the leaf's effect, JobSet.finished_job never raises, History.do/_perform_undos/_perform_redos "
+             "leave both lists and current_change unchanged on failure -- for every list of changes and every failure point. The leaf inverse law is an axiom here "
+             "(C11). A bounded fault-injection stand-in on real files accompanies it.",
+    "note": "single-fault assumption (faults <= 1: the rollback itself does not fail); abstract tree with uninterpreted apply/unapply; "
+            "leaf changes' all-or-nothing contract assumed (OS-level atomicity of one fs call); observers do not raise.",
+    "undecided": ["failure inside the rollback itself (second fault)", "selective undo of several dependent changes failing part-way"],
+}
 _NB = "check not built yet (framework under construction; see DESIGN.md section 8)"
 NOT_APPLICABLE = {"C%02d" % i: _NB for i in range(1, 21)}
